@@ -102,6 +102,24 @@ CLAIMED = {
              "code shape and is exercised by C03's correspondence. update() reuses the importer (C10).",
         technique="Coq proof (per-strategy state-transition theorems, attribute-union theorem) + exhaustive small-scope differential correspondence",
         design="4 (C05)"),
+    "C03": dict(
+        text="Coq theorems (Properties/C03.v, 10 statements, closed under the global context) about the model of the GTF "
+             "importer: no line is ever its own parent or child (all lines, keys, configurations); an ordinary line gets exactly "
+             "(transcript,line,1), (gene,line,2), (gene,transcript,1), an explicit transcript line exactly (gene,transcript,1), "
+             "an explicit gene line nothing; the derived extent is exactly min start .. max end of the related subfeatures on "
+             "their seqid/strand; both flags off = identity, each flag suppresses exactly its derived type; derived features are "
+             "keyed by their transcript/gene id (retrievable by id); a line already stored under that id stays the single "
+             "feature. The composition (every transcript/gene owning a subfeature gets exactly one such feature) is decided by "
+             "the correspondence, which checks it directly on the implementation's tables for ~260 generated annotations per "
+             "quick run (shuffled, explicit lines, 4 flag combinations, custom keys/subfeature, text and Feature input) besides "
+             "comparing all four tables with the model inside Coq.",
+        note="Trusted: Coq kernel + vm_compute; Model/Import.v (GTF part: relation triples, the DISTINCT/ORDER BY pair query, "
+             "MIN/MAX with bare columns, temp-file round trip as identity on tab/newline-free fields, merge on collision) is "
+             "hand-written and tied by the correspondence only. Domain: lines carry both ids, one seqid/strand per transcript "
+             "and gene, integer coordinates, gene ids distinct from transcript ids. The end-to-end extent theorem over the "
+             "whole import is not proved (component theorems + correspondence).",
+        technique="Coq proof (relation-triple, min/max extent, flag and collision theorems on the importer model) + differential correspondence with a direct spec check",
+        design="4 (C03)"),
 }
 
 PENDING_REASON = "machinery for this property is not built yet in this revision (planned, see DESIGN.md section 4/9); not claimed until its check exists"
